@@ -26,6 +26,8 @@ fn strings() -> Vec<String> {
         "é".repeat(106),                 // 212 bytes
         format!("{}a", "é".repeat(106)), // 213 bytes
         "€".repeat(71),                  // 213 bytes
+        // a relative path with colons in it (not a URL: the format knows no scheme)
+        "2024-05-17T10:30:00/c.jbkc".into(),
     ]
 }
 
@@ -407,7 +409,7 @@ fn main() {
     let mut rep = Report::new(
         "locmc",
         "C12",
-        "BFS over rewrite histories: state = vector of recorded locations; events = (every pack listed incl. the directory pack, or an unknown uuid) x 11 strings ('', 'a', one ending with U+0000, 'd/e.jbkc' and three other spellings of that path ('d//e.jbkc', 'd/./e.jbkc', 'd/e.jbkc/'), 213 x 'x', 212-byte and 213-byte multi-byte UTF-8); depth 2 (quick) / 3 (thorough) from each initial state (standalone manifest, manifest inside a OneFile container, inside concat outputs with the manifest last / in the middle, the same with non-zero group bytes patched in, and manifests whose pack-info table lies 90 KB / 210 KB into the pack because of per-pack free data, standalone and concatenated); plus manifests listing 300 packs (thorough 255/256/300/600; rewrites of 10 packs spread over the table x 3 strings); plus, per initial state, every byte of every pack description (outside the location) altered before a rewrite of that pack: the rewrite is refused or the description still reads as created or fails; in every state: block CRCs, file structure, locations (independent and library), and for the standalone manifest with its pack files beside it the container opened from it answers for every content pack (found, or missing with the rewritten location; a directory named like one of the strings exists), manifest check(), the library's whole view of the manifest except locations unchanged, container contents; every transition calls the real tools::set_location on a real file; non-trivial = a transition that changes the state",
+        "BFS over rewrite histories: state = vector of recorded locations; events = (every pack listed incl. the directory pack, or an unknown uuid) x 12 strings ('', 'a', one ending with U+0000, one with colons, 'd/e.jbkc' and three other spellings of that path ('d//e.jbkc', 'd/./e.jbkc', 'd/e.jbkc/'), 213 x 'x', 212-byte and 213-byte multi-byte UTF-8); depth 2 (quick) / 3 (thorough) from each initial state (standalone manifest, manifest inside a OneFile container, inside concat outputs with the manifest last / in the middle, the same with non-zero group bytes patched in, and manifests whose pack-info table lies 90 KB / 210 KB into the pack because of per-pack free data, standalone and concatenated); plus manifests listing 300 packs (thorough 255/256/300/600; rewrites of 10 packs spread over the table x 3 strings); plus, per initial state, every byte of every pack description (outside the location) altered before a rewrite of that pack: the rewrite is refused or the description still reads as created or fails; in every state: block CRCs, file structure, locations (independent and library), and for the standalone manifest with its pack files beside it the container opened from it answers for every content pack (found, or missing with the rewritten location; a directory named like one of the strings exists), manifest check(), the library's whole view of the manifest except locations unchanged, container contents; every transition calls the real tools::set_location on a real file; non-trivial = a transition that changes the state",
     );
     // one child process per group of initial states (--shards N)
     if jbkmc::shard::run_children(&args, &mut rep) {
